@@ -258,7 +258,9 @@ def _gen_methods(cx, pkg, main, svc, noun, res, enums, msgs):
     if cx.chance("p_get"):
         _add_get(cx, pkg, main, svc, noun, res)
 
-    if cx.chance("p_list"):
+    if cx.chance("p_list") and p_variants(cx):
+        _gen_list_variant(cx, pkg, main, svc, noun, res, enums, msgs)
+    elif cx.chance("p_list"):
         used = {"parent", "page_size", "page_token"}
         fields = [{"name": "parent", "number": 1, "type": "string", "required": True, "child_ref": rtype},
                   {"name": "page_size", "number": 2, "type": "int32"},
@@ -400,6 +402,98 @@ def _gen_methods(cx, pkg, main, svc, noun, res, enums, msgs):
         if cx.chance("p_http"):
             m["http"] = {"verb": "post", "path": f"{pre}/{{resource={wild}}}:setIamPolicy", "body": "*"}
         svc["methods"].append(m)
+
+
+def p_variants(cx):
+    return bool(cx.p.get("paged_variants"))
+
+
+def _gen_list_variant(cx, pkg, main, svc, noun, res, enums, msgs):
+    """List method whose request/response shapes are drawn around the AIP-4233 rule: each
+    ingredient present / absent / mistyped (DESIGN.md section 4 C07, classification half)."""
+    rng = cx.rng
+    P = "." + pkg
+    coll = res["coll"]
+    rtype = res["msg"]["resource"]["type"]
+    fields = [{"name": "parent", "type": "string", "required": True, "child_ref": rtype}]
+    c = rng.random()
+    if c < 0.82:
+        fields.append({"name": "page_token", "type": "string"})
+    elif c < 0.9:
+        fields.append({"name": "page_token", "type": rng.choice(["bytes", "int32"])})
+    c = rng.random()
+    if c < 0.5:
+        fields.append({"name": "page_size", "type": "int32"})
+    elif c < 0.62:
+        fields.append({"name": "page_size", "type": rng.choice(["int64", "uint32", "sint32", "fixed32"])})
+    elif c < 0.70:
+        fields.append({"name": "max_results", "type": rng.choice(["int32", "uint32"])})
+    elif c < 0.76:
+        fields.append({"name": "max_results", "type": "message", "type_name": ".google.protobuf.Int32Value"})
+    elif c < 0.82:
+        fields.append({"name": "max_results", "type": "message", "type_name": ".google.protobuf.UInt32Value"})
+    elif c < 0.88:
+        fields.append({"name": "page_size", "type": rng.choice(["string", "bool", "double"])})
+    elif c < 0.92:
+        fields.append({"name": "max_results", "type": rng.choice(["string", "message"]),
+                       "type_name": ".google.protobuf.StringValue"})
+        if fields[-1]["type"] == "string":
+            fields[-1].pop("type_name")
+    if rng.random() < 0.5:
+        fields.append({"name": "filter", "type": "string"})
+    if rng.random() < 0.3:
+        fields.append({"name": "order_by", "type": "string"})
+    if rng.random() < 0.3:
+        fields.append({"name": "show_deleted", "type": "bool"})
+    head, tail = fields[:1], fields[1:]
+    rng.shuffle(tail)
+    fields = head + tail
+    for f, n in zip(fields, _number_seq(cx, len(fields))):
+        f["number"] = n
+    _msg(main, f"List{noun}sRequest", fields)
+
+    rf = []
+    c = rng.random()
+    if c < 0.86:
+        rf.append({"name": "next_page_token", "type": "string"})
+    elif c < 0.93:
+        rf.append({"name": "next_page_token", "type": rng.choice(["bytes", "int64"])})
+    reps = []
+    c = rng.random()
+    if c < 0.55:
+        reps.append({"name": coll, "type": "message", "type_name": P + "." + noun, "repeated": True})
+    elif c < 0.7:
+        reps.append({"name": coll, "type": rng.choice(["string", "int64", "bytes"]), "repeated": True})
+    elif c < 0.82:
+        reps.append({"name": coll, "type": "message",
+                     "map": {"key": rng.choice(["string", "int32"]),
+                             "value": rng.choice([{"type": "message", "type_name": P + "." + noun}, {"type": "string"}])}})
+    elif c < 0.9:
+        reps.append({"name": coll, "type": "enum", "type_name": P + ".State", "repeated": True})
+    # else: no repeated field at all
+    if reps and rng.random() < 0.5:
+        reps.append({"name": "unreachable", "type": "string", "repeated": True})
+    if reps and rng.random() < 0.2:
+        reps.append({"name": "related", "type": "message", "type_name": P + ".Detail", "repeated": True})
+    scal = []
+    if rng.random() < 0.5:
+        scal.append({"name": "total_size", "type": "int32"})
+    if rng.random() < 0.3:
+        scal.append({"name": "etag", "type": "string"})
+    # declaration order: repeated fields keep their relative order (the FIRST one is the paged field);
+    # singular fields are sprinkled around them
+    order = list(reps)
+    for x in rf + scal:
+        order.insert(rng.randint(0, len(order)), x)
+    for f, n in zip(order, _number_seq(cx, len(order))):
+        f["number"] = n
+    _msg(main, f"List{noun}sResponse", order)
+    m = {"name": f"List{noun}s", "input": f"{P}.List{noun}sRequest", "output": f"{P}.List{noun}sResponse"}
+    if cx.chance("p_http"):
+        m["http"] = {"verb": "get", "path": f"{_path_prefix(cx)}/{{parent={_wild(res['parent_pattern'])}}}/{coll}"}
+    if cx.chance("p_signature"):
+        m["signatures"] = ["parent"]
+    svc["methods"].append(m)
 
 
 def gen_routing(rng, res):
